@@ -94,6 +94,17 @@ pub fn cases(args: &[String]) {
                 }
             }
         },
+        // every Unicode scalar value as the FIRST character of a card token (followed by 'S') and as the SECOND
+        // (after 'A'): the token-level symbol tables, exhaustively, through the real parse path
+        "scalars" => {
+            let op = arg(args, "--op").unwrap();
+            for c in 0u32..=0x10FFFF {
+                if char::from_u32(c).is_some() {
+                    writeln!(w, "{op} {c} 83").unwrap();
+                    writeln!(w, "{op} 65 {c}").unwrap();
+                }
+            }
+        },
         _ => {
             eprintln!("unknown case family {fam}");
             std::process::exit(2);
